@@ -1,4 +1,5 @@
 import GqlVerif.Props.C07
+import GqlVerif.Proofs.C07Frontends
 open GqlVerif.C07
 #print axioms wrapped_equal
 #print axioms absent_eq_null
@@ -7,3 +8,10 @@ open GqlVerif.C07
 #print axioms deprecation_first_directive
 #print axioms one_of_agree
 #print axioms roots_agree
+-- whole-schema agreement of the two front-ends (Proofs/C07Frontends.lean)
+#print axioms sdl_spec
+#print axioms intro_spec
+#print axioms frontends_equal_of_renderings
+#print axioms frontends_equal
+#print axioms parseIntro_json
+#print axioms frontends_equal_json
